@@ -11,9 +11,23 @@ const pktRule = "cases = PRNG-determined hostile relay histories (sends on v1 UN
 
 type tweak func(pr *Profile, o *SimOpts)
 
+// runPktWith lets a property add extra workloads (run before the relay histories) to the same Check.
+var extraPart = map[string]func(c *kit.Check){}
+
+func runPktWith(t *testing.T, prop string, extra func(c *kit.Check)) {
+	extraPart[prop] = extra
+	testC04Sim(t)
+}
+
 func runPkt(t *testing.T, prop, level string, quickCases, thoroughCases, ops int, tw tweak, floors map[string]int64) {
 	c := kit.NewCheck(t, prop, level, pktRule)
 	defer c.Finish()
+	if f := extraPart[prop]; f != nil {
+		c.SetCase("extra")
+		if c.OnlyCase == "" || c.OnlyCase == "extra" {
+			f(c)
+		}
+	}
 	c.Assume("CometBFT/IAVL proof verification and the SDK transaction machinery are the trusted base")
 	c.Assume("application stacks are the ones wired in testing/simapp (mock, transfer+PFM+rate-limit, mock v2 A/B, transfer v2)")
 	for k, v := range floors {
@@ -84,6 +98,24 @@ func TestC03(t *testing.T) {
 }
 
 func TestC04(t *testing.T) {
+	defer func() {
+		// localhost loopback part (its own small worlds); counted into the same evidence
+	}()
+	runPktWith(t, "C04", func(c *kit.Check) {
+		c.Floor("localhost_timeout_attempts", 100)
+		c.Floor("localhost_timeout_rejected", 60)
+		c.Floor("localhost_honest_timeouts", 10)
+		n := c.N(12, 20)
+		for i := 0; i < n; i++ {
+			r := kit.NewRng(c.Seed, "C04-localhost", c.CaseID(i))
+			if err := kit.Try(func() { c04Localhost(c, r) }); err != nil {
+				c.Inconcl("localhost: " + err.Error())
+			}
+		}
+	})
+}
+
+func testC04Sim(t *testing.T) {
 	runPkt(t, "C04", "exploration", 40, 60, 70, func(pr *Profile, o *SimOpts) {
 		pr.Timeout, pr.TimeoutEarly, pr.TimeoutReceived, pr.RecvAfterTimeout, pr.SoonPct, pr.Boundary = 12, 10, 8, 8, 60, 8
 	}, map[string]int64{"cb_timeout": 60, "timeout_truth_elapsed": 50, "rejected_timeout": 60})
